@@ -40,3 +40,29 @@ claim('C07',
   note='Partial by nature: that the C code never touches a byte outside the region is observed (guard pages, every run) not proved - the model indexes a total slot function; struct padding and stale bytes of free slots are outside the model. Trusted as C06.',
   technique='Rocq inductive invariant (Rep) over all histories and capacities + lockstep with relocation of the memory region',
   design='5.7')
+claim('C03',
+  text='Theorems (closed under the global context; comparator laws as premises): the getnext loop is modelled as a small-step machine over per-node stamps and parent links (id-indexed maps, equivalent to the struct fields); '
+       'from the root of any subtree it hands out exactly the not-yet-stamped nodes in order, stamps them and climbs back through the saved parent link within 3*size steps (C03_visit_subtree/C03_visit_all); '
+       'after ANY history of put/remove/complete and abandoned walks/nearest-key searches - including more than 256 traversal starts, where the 8-bit epoch wraps (repaired in /repo: marks cleared, id 0 skipped) - a walk from a zeroed cursor returns every entry exactly once in ascending order with current values and then reports the end '
+       '(C03_fresh_walk_seq, C03_walk: full refinement of all nine operations for every history, invariants Inv/IdInv/Clean). '
+       'Tie: lockstep with the implementation on histories mixing hundreds of walks (complete/abandoned at every position) with insertions/removals, histories started just below the epoch wrap, stale-mark histories of 256 resets.',
+  note='Trusted as C01. `settid` in the harness presets the public tid field on an empty fresh table only (a state reachable by walks over a removed key). The table must not be modified during a walk (property premise).',
+  technique='Rocq proof: structural induction on subtrees for the loop machine + history invariant (node stamp <= table epoch, unique ids) + refinement of every operation; lockstep differential execution',
+  design='5.3')
+claim('C04',
+  text='Theorems: qtreetbl_find_nearest (descent recording parent links, climb while probe < node, fallback to the last node) returns the entry of the ideal floor function - equal key, else greatest smaller, else smallest; not-found iff empty - '
+       'for every state reachable by any history, never crashes and the climb terminates with fuel <= size (C04_nearest_floor; needs the repaired root parent link); the answer depends only on the current contents (it is stated through abs s); '
+       'when no walk was left unfinished, continuing with getnext from the returned cursor visits min(n,size) distinct entries and all of them, a permutation of the contents, before reporting the end (C04_continue, C04_continue_distinct); in any other stamp state the continuation still terminates inside the tree (C04_continue_total). '
+       'Tie: probes of every class (present, between, below minimum, above maximum) after root-changing histories, every continuation length, in lockstep with the implementation under a watchdog.',
+  note='Trusted as C01.',
+  technique='Rocq proof (BST floor along the search path, induction over ancestor frames for the continuation) + lockstep differential execution',
+  design='5.4')
+claim('C14',
+  text='For every non-static function of qtreetbl/qhashtbl/qlisttbl/qlist/qvector/qqueue/qstack/qgrow/qlog (lock()/unlock() themselves excepted) the control-flow abstraction is regenerated from clang\'s AST on every run and a checker verified in Coq '
+       '(chk_sound over a path semantics in which branch conditions, loop counts and allocation outcomes are unconstrained) is evaluated on it: on EVERY path - success, invalid argument, missing key, out-of-range index, empty/full container, allocation failure - '
+       'the function ends by return or fall-through with the lock depth it was entered with, both when entered with the lock free and when the caller already holds it (C14_every_path, C14_every_path_nested). A missing unlock breaks the obligation C14_all_balanced. '
+       'Four such leaks of the pinned code (qvector setat/popat/reverse, qhashtbl get) were repaired in /repo.',
+  note='Trusted: Coq kernel, tools/gen_lockast.py and clang\'s parser (what the translator cannot read becomes Unsupported, which the checker rejects; forward goto to a tail label and gotos in lock-free constructors are handled as described in the translator), '
+       'the hand-read meaning of Q_MUTEX_ENTER/LEAVE (enter returns only after a successful trylock with depth+1; leave decrements), pthread recursive-mutex semantics.',
+  technique='source-to-Coq translation of lock structure (clang AST) + verified path checker evaluated per function by vm_compute',
+  design='5.14')
